@@ -35,3 +35,27 @@ Theorem C09_move_guard : forall d r dest d',
   dom_transfer_within d r dest = Ok d' ->
   r <> d_root d /\ anc_loop (S (dom_size d)) d dest r = Ok false.
 Proof. exact transfer_within_guard. Qed.
+
+(* ---- every DOM reachable by any history is well formed ----
+   For every finite history of operations (new, insert, destroy, transfer_within, transfer, clone_within,
+   clone_into_external, clone_multiple_into_external) over any number of DOMs, each called within its
+   documented preconditions (= the specification of Model/Tree.v is defined at every step) on builders whose
+   referents/ids are fresh (below the allocators): the concrete model of dom.rs neither panics nor runs out of
+   fuel, and every DOM it reaches is a well-formed forest with unique UniqueIds. *)
+From RbxVerif Require Import World.
+Theorem C09_wf_reachable : forall ops aw',
+  ops_ok aworld0 ops -> arun aworld0 ops = Some aw' ->
+  exists w', run world0 ops = Ok w' /\ Forall WF (w_doms w').
+Proof. exact wf_reachable. Qed.
+Check C09_wf_reachable : forall ops aw',
+  ops_ok aworld0 ops -> arun aworld0 ops = Some aw' ->
+  exists w', run world0 ops = Ok w' /\ Forall WF (w_doms w').
+
+Theorem C09_step_refines : forall w aw o aw' ret,
+  RepW w aw -> op_ok aw o -> astep aw o = Some (aw', ret) ->
+  exists w', step w o = Ok (w', ret) /\ RepW w' aw'.
+Proof. exact refines_step. Qed.
+
+(* the premises are satisfiable: a 9-operation history over two DOMs using every kind of operation *)
+Theorem C09_nonvacuous : ops_ok aworld0 ex_ops /\ exists aw', arun aworld0 ex_ops = Some aw'.
+Proof. split; [exact ex_ops_ok|]. destruct ex_ops_defined as [aw' [H _]]. exists aw'. exact H. Qed.
